@@ -305,6 +305,7 @@ def instances():
           tier="thorough" if big else "quick", timeout=10800 if big else 900, mem_gb=30 if big else 14)
     for w, wn in enumerate(("clear", "drop", "drain", "into_iter", "retain", "shrink0")):
         T("c04_drop_panic_%s_n8" % wn, "c04::drop_panic::<8>(%d)" % w, 8, be=G8, props=("C04", "C03"), covers="some")
+    T("c04_drop_panic_clone_from_empty_n8", "c04::drop_panic_dispose::<8>(true)", 8, be=G8, props=("C04", "C03", "C11"))
     T("c04_predicate_validity_retain_n8", "c04::predicate_time_validity::<8>(false)", 8, be=G8, props=("C04",))
     T("c04_predicate_validity_extract_n4", "c04::predicate_time_validity::<4>(true)", 4, be=G8, props=("C04",), tier="thorough", timeout=10800, mem_gb=30)
     T("c04_predicate_validity_extract_n8", "c04::predicate_time_validity::<8>(true)", 8, be=G8, props=("C04",), tier="thorough", timeout=10800, mem_gb=30)
